@@ -4,7 +4,7 @@ CONSTANTS EmitCases, DerivedTraits, PhTypes
 VARIABLES c
 
 NoLit == [pre |-> FALSE, post |-> FALSE, nph |-> 1, ref |-> "next", ty |-> "Display", mod |-> "none"]
-Lits == [pre : BOOLEAN, post : BOOLEAN, nph : 1..2,
+Lits == [pre : BOOLEAN, post : BOOLEAN, nph : 0..2,
          ref : {"next", "pos0", "pos1", "pos2", "name_field", "name_other"},
          ty : PhTypes, mod : {"none", "ws", "colon", "colon_ws", "width", "fill", "left", "center", "right", "sign", "minus", "alt", "zero", "prec"}]
 ArgForms == {"none", "pos_field", "pos_expr", "named_match", "named_nomatch", "two"}
@@ -16,13 +16,15 @@ Cases == [hasAttr : {TRUE}, nfields : 1..2, named : BOOLEAN, D : DerivedTraits, 
 \* keep the space to the interesting part: text/second placeholder/modifiers are varied one at a time
 Interesting(x) ==
     /\ (x.lit.pre => ~x.lit.post /\ x.lit.nph = 1 /\ x.lit.mod = "none")
-    /\ (x.lit.post => x.lit.nph = 1 /\ x.lit.mod = "none")
+    /\ (x.lit.post => x.lit.nph \in {0, 1} /\ x.lit.mod = "none")
     /\ (x.lit.nph = 2 => x.lit.mod = "none" /\ x.lit.ref \in {"next", "pos0"})
+    \* a literal without placeholders: plain text, or text with `{{`/`}}` escapes (post); never an argument
+    /\ (x.lit.nph = 0 => ~x.lit.pre /\ x.lit.mod = "none" /\ x.lit.ref = "next" /\ x.lit.ty = "Display" /\ x.args = "none" /\ x.sh = "none")
     /\ (x.args = "two" <=> x.nfields = 2 /\ x.hasAttr)
     /\ (x.lit.mod \in {"colon", "colon_ws"} => x.lit.ty = "Display")    \* an EMPTY spec: with a type it is "none"/"ws"
     /\ (x.named => x.lit.ref = "name_field" \/ ~x.hasAttr)          \* field names only matter there
     /\ (x.lit.mod \notin Blank => x.args \in {"none", "pos_field"})
-    /\ ((x.lit.pre \/ x.lit.post \/ x.lit.nph = 2) => x.lit.ty \in {"Display", "Debug"} /\ x.D \in {"Display", "Debug"})
+    /\ ((x.lit.pre \/ (x.lit.post /\ x.lit.nph # 0) \/ x.lit.nph = 2) => x.lit.ty \in {"Display", "Debug"} /\ x.D \in {"Display", "Debug"})
     /\ (x.sh # "none" => /\ x.D # "Debug"                        \* no enum-level format on Debug (C07)
                           /\ x.lit.mod = "none" /\ ~x.lit.pre /\ ~x.lit.post /\ x.lit.nph = 1
                           /\ x.args \in {"none", "pos_field"} /\ x.lit.ref \in {"next", "name_field", "pos1"})
